@@ -145,7 +145,9 @@ func (p *kdPass) scanNode(u *kdUnit, n ast.Node, st kdState, lhs map[ast.Expr]bo
 	})
 }
 
-func sameState(a, b kdState) bool { return a.mode == b.mode && a.region == b.region && a.deferred == b.deferred }
+func sameState(a, b kdState) bool {
+	return a.mode == b.mode && a.region == b.region && a.deferred == b.deferred
+}
 
 // nested walks a nested statement list; the state after the enclosing statement is the entry
 // state if the list leaves it unchanged, `unknown` otherwise.
